@@ -29,7 +29,7 @@ PNames == {"x", "y", "z", ""}
 Paths == {<<a>> : a \in PNames \ {"z"}} \cup {<<a, b>> : a \in PNames, b \in PNames \ {"z"}}
          \cup (IF MaxLen = 3 THEN {<<a, b, c>> : a \in PNames, b \in PNames, c \in PNames \ {"z"}} ELSE {})
 Roots == {"A", "B", "Z", ""}
-Queries == SetToSeq({[root |-> r, path |-> p] : r \in Roots, p \in Paths})
+Queries == SetToSeq({[root |-> r, path |-> p, text |-> Text(r, p)] : r \in Roots, p \in Paths})
 
 ITypes == {"A", "B", "Z"}
 IProtos == {"can", "uart", "default"}
